@@ -405,6 +405,26 @@ def lifecycle_probe(run):
                      ops=["Sampler(random_state=8).run(save_every=1)", f"fresh Sampler(random_state=8).run(resume_state_path=w_{k}.state)"], checkpoint=k)
             break
 
+    # (iv) the generator state is restored WHOLE: a checkpoint written while the generator holds a cached normal deviate (an odd number
+    # of normal draws so far) restores that deviate too
+    d3 = tempfile.mkdtemp(prefix="c09s_", dir=run.scratch.dir)
+    sv = Sampler(pt, ll, n_dim=2, n_particles=12, random_state=4, clustering=False)
+    sv.run(n_total=24, progress=False)
+    np.random.seed(123)
+    np.random.randn(3)                      # an odd number of normal draws: one deviate is cached
+    sv.save_state(d3 + "/s.state")
+    want_state = np.random.get_state()
+    np.random.seed(999)
+    ld = Sampler(pt, ll, n_dim=2, n_particles=12, random_state=4, clustering=False)
+    ld.load_state(d3 + "/s.state")
+    got_state = np.random.get_state()
+    run.case(key=("lifecycle", "full-generator-state"), nontrivial=bool(want_state[3]))
+    same = want_state[0] == got_state[0] and np.array_equal(want_state[1], got_state[1]) and tuple(want_state[2:]) == tuple(got_state[2:])
+    if not same:
+        run.fail("resume-replays-the-stream", f"a seeded sampler's checkpoint written with generator position {want_state[2]}, cached deviate flag {want_state[3]} "
+                 f"({want_state[4]!r}) restores position {got_state[2]}, flag {got_state[3]} ({got_state[4]!r}): the resumed run does not continue the stream "
+                 f"of the run that wrote the checkpoint", ops=["np.random.randn(3)", "save_state", "np.random.seed(999)", "fresh.load_state"])
+
 
 def fit_probe(run, tier, rng):
     from tempest.cluster import GaussianMixture, HierarchicalGaussianMixture
@@ -438,6 +458,17 @@ def fit_probe(run, tier, rng):
         elif after[0] == after[1]:
             run.fail("stream-after-fit-independent-of-prior-seed",
                      f"after HierarchicalGaussianMixture.fit the next global draw is {after[0]} whatever the seed before", data_seed=t)
+        # a model given its OWN random_state neither depends on nor consumes the global stream (several components, several restarts)
+        outs = []
+        for pre in (11, 12):
+            np.random.seed(pre)
+            g = GaussianMixture(n_components=3, random_state=5, n_init=2).fit(X, w)
+            outs.append((np.asarray(g.means_).tobytes(), np.asarray(g.weights_).tobytes(), float(np.random.rand()), float(np.random.RandomState(pre).rand())))
+        if outs[0][:2] != outs[1][:2]:
+            run.fail("seeded-run-not-reproducible", "GaussianMixture(n_components=3, random_state=5).fit(X, w) gives different models under different "
+                     "states of the global generator: part of its randomness comes from the global stream", data_seed=t)
+        elif any(o[2] != o[3] for o in outs):
+            run.fail("library-reseeds-global-stream", "a GaussianMixture with its own random_state consumed numbers from the global stream during fit", data_seed=t)
     run.count("fit_probes", reps)
 
 
